@@ -238,7 +238,8 @@ class C05(Prop):
         if which == "agp":
             tp = all(r[0] == "G" or r[4] in (1, -1) for sc in a["scaffolds"] for r in sc["rows"]) and all(
                 sc["rows"][0][0] == "F" for sc in a["scaffolds"]) and all(
-                r[0] == "G" or (r[1] and r[2] >= 0) for sc in a["scaffolds"] for r in sc["rows"])
+                r[0] == "G" or (r[1] and r[2] >= 0) for sc in a["scaffolds"] for r in sc["rows"]) and all(
+                r[0] == "F" or r[2] == r[2].lower() for sc in a["scaffolds"] for r in sc["rows"])
             if tp and obs["via_tpf"] != drop_tags(a):
                 return f"AGP -> TPF -> parse gives {obs['via_tpf']}, expected the assembly without tags"
         return None
